@@ -126,6 +126,48 @@ def correspond(ctx):
                     return line[3:]
                 add(f"run_port_render false {PROTOS[proto]} {PLATS[plat2]} {coq_bool(v15)} {n}", outcome(switch),
                     {"k": "port_switch", "protocol": proto, "platform": plat, "to": plat2, "version": ver, "name": name, "n": n})
+    # --- the same for the protocol of a port: a named tcp port re-labelled udp (and back) renders with the
+    #     other protocol's table
+    for (proto, plat, v15), names in tables.items():
+        ver = "15" if v15 else "0"
+        other = "udp" if proto == "tcp" else "tcp"
+        for name, n in sorted(names.items()):
+            def pswitch_port(name=name, n=n, other=other):
+                p = ca.Port(f"eq {name}", protocol=proto, platform=plat, version=ver)
+                _ = p.line
+                p.protocol = other
+                line = p.line
+                assert line.startswith("eq ")
+                q = ca.Port(line, protocol=other, platform=plat, version=ver)
+                assert q.items == [n], (line, q.items)
+                return line[3:]
+            add(f"run_port_render false {PROTOS[other]} {PLATS[plat]} {coq_bool(v15)} {n}", outcome(pswitch_port),
+                {"k": "port_proto_switch", "protocol": proto, "to_protocol": other, "platform": plat, "version": ver,
+                 "name": name, "n": n})
+    # --- the version reaches the name tables through every entry point (acls / aces / Acl / AceGroup)
+    for plat in ("ios", "nxos"):
+        for ver, v15 in (("15.2(02)SY", True), ("16.9", False), ("0", False)):
+            for proto in ("tcp", "udp"):
+                names = pn.PortName(proto, plat, ver).names()
+                nums = sorted(set(names.values()) | {135, 15001, 15002, 521})
+                head = "ip access-list extended A" if plat == "ios" else "ip access-list A"
+                body = [f"permit {proto} any any eq {n}" for n in nums]
+                cfgtext = "\n".join([head] + ["  " + b for b in body]) + "\n"
+                for entry in ("acls", "aces", "Acl", "AceGroup"):
+                    def via(entry=entry, cfgtext=cfgtext, body=body, plat=plat, ver=ver):
+                        if entry == "acls":
+                            items = ca.acls(cfgtext, platform=plat, version=ver)[0].items
+                        elif entry == "aces":
+                            items = ca.aces("\n".join(body), platform=plat, version=ver)
+                        elif entry == "Acl":
+                            items = ca.Acl(cfgtext, platform=plat, version=ver).items
+                        else:
+                            items = ca.AceGroup("\n".join(body), platform=plat, version=ver).items
+                        return [o.line.split()[-1] for o in items]
+                    model = "VL [" + "; ".join(
+                        f"run_port_render false {PROTOS[proto]} {PLATS[plat]} {coq_bool(v15)} {n}" for n in nums) + "]"
+                    add(model, outcome(via), {"k": "entry_version", "entry": entry, "protocol": proto, "platform": plat,
+                                              "version": ver, "numbers": nums})
     for plat, cp in PLATS.items():
         for n_, name in sorted(pr.NR_TO_PROTOCOL[plat].items()):
             for plat2, cp2 in PLATS.items():
@@ -225,6 +267,37 @@ def oracle(ctx, kernel, meta):
                             f"accepted by the {meta['to']} parser: {type(ex).__name__}: {str(ex)[:120]}"}
         if back != [meta["n"]]:
             return {"what": f"port {meta['name']!r} moved {meta['platform']}->{meta['to']} renders {line!r} = {back}, was {meta['n']}"}
+        return None
+    if k == "port_proto_switch":
+        try:
+            p = ca.Port(f"eq {meta['name']}", protocol=meta["protocol"], platform=meta["platform"], version=meta["version"])
+            _ = p.line
+            p.protocol = meta["to_protocol"]
+            back = ca.Port(p.line, protocol=meta["to_protocol"], platform=meta["platform"], version=meta["version"]).items
+        except Exception as ex:  # noqa
+            return {"what": f"port {meta['name']!r} ({meta['n']}) re-labelled {meta['protocol']}->{meta['to_protocol']}: "
+                            f"{type(ex).__name__}: {str(ex)[:120]}"}
+        return None if back == [meta["n"]] else {"what": f"port {meta['name']!r} re-labelled {meta['to_protocol']} denotes {back}, was {meta['n']}"}
+    if k == "entry_version":
+        plat, ver, proto = meta["platform"], meta["version"], meta["protocol"]
+        head = "ip access-list extended A" if plat == "ios" else "ip access-list A"
+        body = [f"permit {proto} any any eq {n}" for n in meta["numbers"]]
+        try:
+            if meta["entry"] == "acls":
+                items = ca.acls("\n".join([head] + ["  " + b for b in body]) + "\n", platform=plat, version=ver)[0].items
+            elif meta["entry"] == "aces":
+                items = ca.aces("\n".join(body), platform=plat, version=ver)
+            elif meta["entry"] == "Acl":
+                items = ca.Acl("\n".join([head] + body), platform=plat, version=ver).items
+            else:
+                items = ca.AceGroup("\n".join(body), platform=plat, version=ver).items
+            for o, n in zip(items, meta["numbers"]):
+                back = ca.Ace(o.line, platform=plat, version=ver).dstport.items
+                if back != [n]:
+                    return {"what": f"{meta['entry']}(version={ver!r}): port {n} rendered {o.line!r} = {back}"}
+        except Exception as ex:  # noqa
+            return {"what": f"{meta['entry']}(platform={plat!r}, version={ver!r}) renders a {proto} port name that the parser "
+                            f"of that platform/version rejects: {type(ex).__name__}: {str(ex)[:140]}"}
         return None
     if k == "proto_switch":
         try:
